@@ -14,7 +14,7 @@
 
 use nom::branch::alt;
 use nom::character::complete::{char, satisfy};
-use nom::combinator::{map, opt, recognize};
+use nom::combinator::{all_consuming, map, opt, recognize};
 use nom::multi::{many0_count, many1_count};
 use nom::sequence::{pair, preceded, terminated, tuple};
 use nom::{AsChar, IResult};
@@ -132,7 +132,8 @@ impl<'a> RouteUriParts<'a> {
 }
 
 pub fn route_uri(input: Span<'_>) -> IResult<Span<'_>, RouteUriParts<'_>> {
-    map(
+    // The whole of the input must be a route URI (a valid prefix followed by other characters is not).
+    all_consuming(map(
         tuple((opt(terminated(scheme, char(':'))), path, query, fragment)),
         |(scheme, path, query, fragment)| RouteUriParts {
             scheme,
@@ -140,5 +141,5 @@ pub fn route_uri(input: Span<'_>) -> IResult<Span<'_>, RouteUriParts<'_>> {
             query,
             fragment,
         },
-    )(input)
+    ))(input)
 }
